@@ -339,6 +339,16 @@ func propC18(o *out, r *rng, thorough bool) {
 		c18Seq(o, c18cond{text: "abs(value) > 1 AND " + tb + " AND f(host) = 'x'"}, wins(3), "calls kept")
 		o.nontrivial(tb)
 	}
+	// conditions that already look like the output of an earlier call (a window appended as two string bounds), with
+	// further bounds of every spelling in front, behind and between: all of them go
+	hostA := func(t map[string]interface{}) bool { return t["host"] == "a" }
+	win := "time >= '2020-01-01T00:00:00Z' AND time < '2020-01-02T00:00:00Z'"
+	for _, extra := range []string{"time <= now()", "time > 5", "'2019-01-01T00:00:00Z' < time", "time = 7", "(time < now())", "time >= '2019-01-01T00:00:00Z' AND time < '2019-06-01T00:00:00Z'"} {
+		for _, text := range []string{"host = 'a' AND " + extra + " AND " + win, extra + " AND host = 'a' AND " + win, "host = 'a' AND " + win + " AND " + extra, extra + " AND " + win + " AND host = 'a'",
+			"host = 'a' AND (" + extra + ") AND " + win, "(host = 'a' AND " + extra + ") AND " + win, "host = 'a' AND " + extra + " AND (" + win + ")", win + " AND host = 'a' AND " + win} {
+			c18Seq(o, c18cond{text: text, nonTime: hostA, inClass: true}, wins(3), "window-shaped")
+		}
+	}
 	for _, c := range []c18cond{
 		{text: ""}, {text: "host = 'a'", nonTime: func(t map[string]interface{}) bool { return t["host"] == "a" }},
 		{text: "host = 'a' OR region = 'b'", nonTime: func(t map[string]interface{}) bool { return t["host"] == "a" || t["region"] == "b" }},
